@@ -7,4 +7,8 @@ import CuriesVerif.Codec
 import CuriesVerif.Program
 import CuriesVerif.Spec.Answer
 import CuriesVerif.Check
+import CuriesVerif.Lemmas.Basic
+import CuriesVerif.Lemmas.Lpi
+import CuriesVerif.Lemmas.WF
+import CuriesVerif.Lemmas.Refine
 import CuriesVerif.Properties.All
